@@ -101,7 +101,7 @@ def read_params():
 
 # ---------------------------------------------------------------- prove
 def coq_makefile():
-    vs = sorted(f for f in os.listdir(COQ) if f.endswith(".v")) + ["gen/Params.v"]
+    vs = sorted(f for f in os.listdir(COQ) if f.endswith(".v") and f != "Extract.v") + ["gen/Params.v"]
     txt = "-Q . NTT\n" + "\n".join(vs) + "\n"
     p = os.path.join(COQ, "_CoqProject")
     if not os.path.exists(p) or open(p).read() != txt or not os.path.exists(os.path.join(COQ, "Makefile")):
@@ -244,6 +244,7 @@ def build_model(timeout=900):
 # ---------------------------------------------------------------- implementation harness
 BACKENDS = {
     "serial": [],
+    "opt": ["-DNFL_OPTIMIZED"],
     "sse": ["-DNFL_OPTIMIZED", "-DNTT_SSE", "-msse4.2"],
     "avx2": ["-DNFL_OPTIMIZED", "-DNTT_AVX2", "-mavx2"],
 }
@@ -308,6 +309,10 @@ class Check:
                     self.known_hits.append(key)
                     log("KNOWN-FINDING: property=%s %s" % (self.pid, k.get("what", key)))
                 return
+        self._ntag = getattr(self, "_ntag", {})
+        self._ntag[tag] = self._ntag.get(tag, 0) + 1
+        if self._ntag[tag] > 1:
+            tag = "%s_%d" % (tag, self._ntag[tag])
         path = self.replay_path(tag)
         record = dict(record); record["property"] = self.pid; record["what"] = what
         record["replay_cmd"] = "./check %s --replay %s" % (self.pid, path)
